@@ -59,10 +59,10 @@ func countExpr(e *ebnf.Expression, c *ebnfCounts) {
 			switch {
 			case term.Name != "":
 				c.names++
-			case term.Literal != "":
+			case fmt.Sprint(term.Literal) != "":
 				c.literals++
 				if c.texts != nil {
-					c.texts[term.Literal]++
+					c.texts[fmt.Sprint(term.Literal)]++
 				}
 			case term.Group != nil:
 				switch term.Group.Lookahead {
@@ -82,7 +82,7 @@ func countExpr(e *ebnf.Expression, c *ebnfCounts) {
 // parsed tree survives print + parse unchanged.
 func TestVerif_C14_EBNF(t *testing.T) {
 	res := &xResult{Check: "Parser.String EBNF", Property: "C14", Exhaustive: true,
-		Bound: "the grammar family of the C08 stand-in: one production with <= 4 nodes, two productions with <= 2 and <= 3 nodes (thorough: one production <= 5, two productions <= 3 and <= 3) over {literal \"x\", literal a\"\\b%d\\ (needs escaping, holds a formatting verb, ends in a backslash), production, sequence, choice, ? * + !, ~, (?= ), (?! ), capture, redundant parentheses}; plus 7 grammars built with Build from struct tags: union root, union field, anonymous and embedded struct types, Parseable and custom productions, ( x* )?",
+		Bound: "the grammar family of the C08 stand-in: one production with <= 4 nodes, two productions with <= 2 and <= 3 nodes (thorough: one production <= 5, two productions <= 3 and <= 3) over {literal \"x\", literal a\"\\b%d\\ (needs escaping, holds a formatting verb, ends in a backslash), production, sequence, choice, ? * + !, ~, (?= ), (?! ), capture, redundant parentheses}; plus 9 grammars built with Build from struct tags: union root, union field, anonymous and embedded struct types, Parseable and custom productions, ( x* )?",
 		Rule: "distinct grammars; non-trivial = contains a modifier, ~ or a lookahead group"}
 	one, twoA, twoB := 4, 2, 3
 	if os.Getenv("VERIF_TIER") == "thorough" {
@@ -284,6 +284,15 @@ func ebnfCase[G any](res *xResult, userCode map[string]bool, options ...particip
 	}
 }
 
+type ebAnyText struct {
+	K string `@"":Ident "="`
+	V string `@"":Int`
+}
+type ebAnyCustom struct {
+	K string `@Ident "="`
+	V any    `@@`
+}
+
 func ebnfNamedCases(res *xResult) {
 	union := participle.Union[ebUnion](ebUA{}, ebUB{})
 	ebnfCase[ebUnion](res, nil, union)
@@ -300,6 +309,10 @@ func ebnfNamedCases(res *xResult) {
 	} else if text := p2.String(); !strings.Contains(text, "EbUC = ") || !strings.Contains(text, "EbUA | EbUB | EbUC") {
 		res.violate("String() of a second parser for the same root type with another Union option does not describe that parser: %q", text)
 	}
+	// a literal that stands for any text of a token type, and a custom production of an unnamed interface type
+	ebnfCase[ebAnyText](res, nil)
+	ebnfCase[ebAnyCustom](res, map[string]bool{"Anon1": true, "Anon2": true, "Anon3": true},
+		participle.ParseTypeWith(func(lex *lexer.PeekingLexer) (any, error) { return lex.Next().Value, nil }))
 	ebnfCase[ebUser](res, map[string]bool{"EbParseable": true, "ebParseable": true, "EbCustom": true},
 		participle.ParseTypeWith(func(lex *lexer.PeekingLexer) (ebCustom, error) { return ebCustomV{V: lex.Next().Value}, nil }))
 }
